@@ -246,9 +246,15 @@ def refauto(r, target, log, env):
                 kwargs.update(dict((k, refauto(a, target, log, env)) for k, a in op[2] if freshest[k] == i))
             else:
                 if op[1] is not None:
-                    args += list(refauto(op[1], target, log, env))
+                    extra = refauto(op[1], target, log, env)
+                    if not hasattr(extra, '__iter__'):
+                        raise RefErr(TypeError, 'argument after * must be an iterable')
+                    args += list(extra)
                 if op[2] is not None:
-                    kwargs.update(refauto(op[2], target, log, env))
+                    extra = refauto(op[2], target, log, env)
+                    if not isinstance(extra, dict):
+                        raise RefErr(TypeError, 'argument after ** must be a mapping')
+                    kwargs.update(extra)
         return FUNCS[r[1]](*args, **kwargs)
     if kind == 'ref':
         env = dict(env)
